@@ -9,21 +9,33 @@ from vpc.core import cN, clist, cbool
 
 IMPORTS = "Require Import V.model.Replication."
 THEOREMS = ["advertises_everything_held", "advert_reaches_every_candidate", "acts_only_on_close_holders",
+            "acts_only_on_k_closest",
             "fetches_only_unheld", "immutable_replicates_identically", "fetched_record_is_holders_or_merge",
             "mutable_converges_if_fetched", "scratchpad_highest_counter_wins", "sync_replicates_missing",
             "periodic_replication_converges_outside_known", "periodic_replication_converges_refuted",
-            "delivery_order_irrelevant_for_missing", "on_replicate_matches_fetcher_model"]
+            "range_sync_is_assignment", "range_history_last_wins", "in_range_advert_is_fetched",
+            "out_of_range_not_fetched",
+            "delivery_order_irrelevant_for_missing", "on_replicate_without_range",
+            "on_replicate_matches_fetcher_model"]
 RULE = ("scenarios over 2-3 real nodes: (a) every node seeded with records of all kinds through the real "
         "replication-path validation, mutual or one-directional routing-table entries, interval replication "
         "at every node, all messages delivered in a seeded random order, several rounds; (b) divergent "
         "versions of a register / transaction set / scratchpad at one key on two nodes (F16 witness family); "
         "(c) explicit replication lists from holders that are self / unknown / not a peer, lists naming held "
         "keys, keys the holder cannot serve, repeated lists while a fetch is in flight; (d) partial "
-        "deliveries and lost messages. A case is distinct/non-trivial by (family, number of nodes, number of "
+        "deliveries and lost messages; (e) receivers with a finite responsible range: the store's range is set "
+        "to the distance of the r-th nearest of the advertised keys (at / one below / one above), a record put "
+        "into the receiver makes the driver copy it into the fetcher, then the range grows / shrinks / grows "
+        "again with or without a further put (the un-synced lag), and lists with 0, 1, 2 or more new keys "
+        "within / between / beyond the ranges arrive (families regrow, regrow-lag, zigzag, boundary); "
+        "(f) routing tables of more than K_VALUE peers with lists from the holder at an exact distance rank "
+        "(K-2, K-1, K, K+1, ...). A case is distinct/non-trivial by (family, number of nodes, number of "
         "effective steps, set of message kinds delivered, whether a fetch stored something, whether stores "
         "ended equal)")
 ASSUMPTIONS = [
-    "closest-peer and replicate-candidate lists are taken from the real routing table as data (their computation is C11)",
+    "replicate-candidate lists are taken from the real node as data (their computation is C11); the closest-K set is NOT: the model and the oracle compute it from the routing-table peers and SHA-256-XOR distances the harness computes itself, K_VALUE re-read from the libp2p-kad source",
+    "distances between nodes and keys / peers are computed by the harness (SHA-256 of the key / PeerId bytes, XOR, big-endian) independently of the repository's own conversion and handed to the model as a table",
+    "the fetcher's range itself is not observable through a hook: the oracle judges from the ranges the TEST set and the points where a PutLocalRecord command was handled (where the driver copies the store's range into the fetcher); the density tick that also copies it is not reachable from the harness",
     "the fetcher is modelled only inside the envelope of the bridge theorem on_replicate_matches_fetcher_model (idle queue, cap not reached, no advertised unheld entry already in flight next to another unheld one) and without timeouts; the agreement stops comparing a run at the step that leaves the envelope (the oracle still judges it); full transcription and theorems: C08",
     "record validity (signatures, content address) is a flag computed by the generator from how the record was built (C04/C06/C07 verify the validators)",
     "libp2p transport is replaced by the harness; message loss/reordering is explicit in the case"]
@@ -128,7 +140,8 @@ def held_term(state, names):
     for i, n in enumerate(state):
         items = clist(["(%s, %s)" % (cN(names.kid(h["key"])), content_term(canon(h["content"], names))) for h in n["held"]])
         infl = clist(["(%s, %s)" % (cN(names.kid(k)), rtype_term(t, names)) for k, t in n.get("inflight", [])])
-        out.append("(%s, %s, %s)" % (cN(i), items, infl))
+        cl = clist([cN(peer_n(p)) for p in n["closest_k"]])
+        out.append("(%s, %s, %s, %s)" % (cN(i), items, infl, cl))
     return clist(out)
 
 
@@ -137,12 +150,24 @@ def holder_of_advert(op):
     return h if 0 <= h < 10 else (998 if h == -3 else 100 + h)   # 100 + seed: how the harness names a non-node peer
 
 
+def distances(o):
+    """the harness's own SHA-256-XOR distances: per node, key -> distance and routing-table peer -> distance"""
+    kd = [{json.dumps(k, sort_keys=True): int(d) for k, d in n.get("dists", [])} for n in o["final"]]
+    pd = [{p: int(d) for p, d in n.get("peer_dists", [])} for n in o["final"]]
+    return kd, pd
+
+
+def table_term(i, n, pd):
+    return clist(["(%s, %s)" % (cN(peer_n(p)), cN(pd[i].get(p, 0))) for p in n.get("rt", [])])
+
+
 def model_term(c, o):
     if "panic" in o or "steps" not in o:
         return "false"
     names = Names()
     steps = o["steps"]
-    SETUP = ("connect", "phantom", "set_range", "dump", "settle")
+    kd, pd = distances(o)
+    SETUP = ("connect", "phantom", "dump", "settle")
     nconn = 0
     for s in steps:
         if s["eff"].get("op") in ("connect", "phantom"):
@@ -150,8 +175,8 @@ def model_term(c, o):
         else:
             break
     base_state = steps[nconn - 1]["state"] if nconn else o["final"]
-    init = clist(["(mkNode %s [] %s %s [])" % (cN(i), clist([cN(peer_n(p)) for p in n["closest_k"]]),
-                                               clist([cN(peer_n(p)) for p in n["candidates"]]))
+    init = clist(["(mkNode %s [] %s %s [] None None)" % (cN(i), table_term(i, n, pd),
+                                                         clist([cN(peer_n(p)) for p in n["candidates"]]))
                   for i, n in enumerate(base_state)])
     ops = []
     tab = {}
@@ -165,12 +190,12 @@ def model_term(c, o):
     for si, s in enumerate(steps[nconn:]):
         e = s["eff"]
         before = steps[nconn + si - 1]["state"] if nconn + si > 0 else base_state
-        # the routing table / range (hence closest-k and candidates) a node works with in this step
+        # the routing table (hence closest-k and candidates) a node works with in this step
         # is the one it had when the step began; what changed during the previous step is applied first
         sets = []
         for i, n in enumerate(before):
-            if n["closest_k"] != prev_state[i]["closest_k"]:
-                sets.append("(OSetClosest %s %s)" % (cN(i), clist([cN(peer_n(p)) for p in n["closest_k"]])))
+            if n.get("rt") != prev_state[i].get("rt"):
+                sets.append("(OSetTable %s %s)" % (cN(i), table_term(i, n, pd)))
             if n["candidates"] != prev_state[i]["candidates"]:
                 sets.append("(OSetCands %s %s)" % (cN(i), clist([cN(peer_n(p)) for p in n["candidates"]])))
         prev_state = before
@@ -187,6 +212,8 @@ def model_term(c, o):
         elif e.get("op") == "advert":
             keys = clist(["(%s, %s)" % (cN(names.kid(k)), rtype_term(t, names)) for k, t in e["keys"]])
             opt = "(OAdvert %s %s %s)" % (cN(e["to"]), cN(holder_of_advert(e)), keys)
+        elif e.get("op") == "set_range" and "value" in e:
+            opt = "(OSetRange %s %s)" % (cN(e["node"]), cN(int(e["value"])))
         else:
             pending_sets += sets
             continue
@@ -197,7 +224,8 @@ def model_term(c, o):
         pool = clist([msg_term(m, names) for m in s["pool"]])
         ops.append("(%s, %s, %s)" % (opt, pool, held_term(s["state"], names)))
     tabt = clist(["(%s, %s)" % (content_term(k), cN(v)) for k, v in tab.items()])
-    return "agree_case %s %s %s" % (tabt, init, clist(ops))
+    dtab = clist(["(%s, %s, %s)" % (cN(i), cN(names.kid(json.loads(k))), cN(d)) for i, m in enumerate(kd) for k, d in sorted(m.items())])
+    return "agree_case %s %s %s %s" % (tabt, dtab, init, clist(ops))
 
 
 def show(c, o):
@@ -223,13 +251,49 @@ def merge_expected(old, new):
     return old
 
 
+KVALUE = 20          # K_VALUE; run() re-reads it from the translator's output (coq/gen/Consts.v, repl_k_value)
+
+
+def read_k_value():
+    import os
+    import re
+    from vpc import core
+    try:
+        txt = open(os.path.join(core.COQ, "gen", "Consts.v")).read()
+    except OSError:
+        return None
+    m = re.search(r"Definition repl_k_value : N := (\d+)\.", txt)
+    return int(m.group(1)) if m else None
+
+
+def norm_type(t):
+    """record type of a list entry as the dumps print it (ops say {"ncb": n} for a NonChunk of 32 bytes n)"""
+    if isinstance(t, dict) and "ncb" in t:
+        return json.dumps({"nc": ("%02x" % t["ncb"]) * 32}, sort_keys=True)
+    return json.dumps(t, sort_keys=True)
+
+
+def expected_closest(j, node_state, pd):
+    """get_closest_k_value_local_peers as the PROPERTY reads it: the node itself and the K_VALUE - 1 nearest
+    peers of its routing table -- K_VALUE entries including self -- by the harness's own XOR distances"""
+    peers = sorted(node_state.get("rt", []), key=lambda p: pd[j].get(p, 1 << 300))
+    return [j] + peers[:KVALUE - 1]
+
+
 def oracle(c, o):
     v = []
     if "panic" in o:
         return [("panic", "harness panicked: " + o["panic"][:200])]
     names = Names()
     steps = o["steps"]
+    kd, pd = distances(o)
+    nn = len(o["final"])
+    store_range = [None] * nn     # what the TEST set through set_range
+    sync_range = [None] * nn      # ... as of the last PutLocalRecord handled by the node (the sync point)
+    offered = {}                  # (receiver b, key) -> [was the key within b's synced range when a close holder's list naming it (b not holding it) was handled]
+    ck_reported = set()
     prev = None
+    prev_state = None
     wanted_from = {}      # (node, key) -> holders a fetch of key was scheduled or queued for
     fetched_from = set()  # (node, key, holder): a fetch that was actually delivered to the holder
     any_drop = False
@@ -265,14 +329,50 @@ def oracle(c, o):
                 got = sorted(json.dumps(x, sort_keys=True) for x in m["keys"])
                 if got != mine or m["holder"] != i:
                     v.append(("advert-incomplete", "step %d: node %d advertised %s but holds %s" % (si, i, got, mine)))
+        # the helper's answer against the independently computed closest-K set
+        for j, n in enumerate(st):
+            want_ck = expected_closest(j, n, pd)
+            if n["closest_k"] != want_ck and j not in ck_reported:
+                ck_reported.add(j)
+                v.append(("closest-k-wrong", "step %d: get_closest_k_value_local_peers of node %d answers %d entries %s; the node itself plus the %d nearest of its %d routing-table peers are %s"
+                          % (si, j, len(n["closest_k"]), n["closest_k"], KVALUE - 1, len(n.get("rt", [])), want_ck)))
+        if e.get("op") == "set_range" and "value" in e:
+            store_range[e["node"]] = int(e["value"])
         if "deliver" in e or e.get("op") == "advert":
             m = e.get("deliver") or {"t": "replicate", "to": e["to"], "holder": holder_of_advert(e) if e["holder"] >= 10 or e["holder"] < 0 else e["holder"], "keys": e["keys"]}
             if m["t"] == "replicate" and 0 <= m["to"] < len(st):
                 j = m["to"]
-                close = m["holder"] in st[j]["closest_k"] and m["holder"] != j
+                bst = prev_state[j] if prev_state is not None else st[j]
+                ck = expected_closest(j, bst, pd)
+                close = m["holder"] in ck and m["holder"] != j
                 acted = [x for x in fetch_events if x["node"] == j] or [x for x in sent if x["t"] == "fetch" and x["from"] == j]
                 if not close and acted:
-                    v.append(("acted-on-far-holder", "step %d: node %d fetched on a list from holder %s which is not among its closest %s (or is itself)" % (si, j, m["holder"], st[j]["closest_k"])))
+                    rank = sorted(bst.get("rt", []), key=lambda p: pd[j].get(p, 1 << 300))
+                    rk = rank.index(m["holder"]) + 1 if m["holder"] in rank else None
+                    v.append(("acted-on-far-holder", "step %d: node %d fetched on a list from holder %s (the %s nearest of its %d routing-table peers) which is not among its %d closest %s (or is itself)"
+                              % (si, j, m["holder"], rk, len(rank), KVALUE, ck)))
+                if close:
+                    # the responsible range: judged from the ranges the test set and the sync points only
+                    r = sync_range[j]
+                    unheld = [(json.dumps(k, sort_keys=True), norm_type(t)) for k, t in m["keys"] if json.dumps(k, sort_keys=True) not in pheld[j]]
+                    infl_b = {(json.dumps(k, sort_keys=True), json.dumps(t, sort_keys=True)) for k, t in bst.get("inflight", [])}
+                    infl_a = {(json.dumps(k, sort_keys=True), json.dumps(t, sort_keys=True)) for k, t in st[j].get("inflight", [])}
+                    qd_b = {(json.dumps(q[0], sort_keys=True), json.dumps(q[1], sort_keys=True)) for q in bst.get("queued", [])}
+                    qd_a = {(json.dumps(q[0], sort_keys=True), json.dumps(q[1], sort_keys=True)) for q in st[j].get("queued", [])}
+                    for k, t in unheld:
+                        d = kd[j].get(k)
+                        if d is None:
+                            continue
+                        offered.setdefault((j, k), []).append(r is None or d <= r)
+                        if r is None or d <= r:
+                            if (k, t) not in infl_a and (k, t) not in qd_a:
+                                v.append(("in-range-not-fetched", "step %d: node %d was sent %s by its close peer %s; it does not hold it and its distance %d is within the node's responsible range %s (as of its last stored record), yet it is neither being fetched nor queued"
+                                          % (si, j, k, m["holder"], d, r)))
+                        elif len(unheld) != 1:
+                            # (exactly one new key: the fast path of C08's F15 fetches it whatever the range)
+                            if ((k, t) in infl_a and (k, t) not in infl_b) or ((k, t) in qd_a and (k, t) not in qd_b):
+                                v.append(("out-of-range-fetched", "step %d: node %d starts fetching / queues %s from a list of %d new keys although its distance %d is beyond the node's responsible range %d"
+                                          % (si, j, k, len(unheld), d, r)))
                 for x in fetch_events:
                     for holder, key in x["keys_to_fetch"]:
                         if json.dumps(key, sort_keys=True) in pheld[x["node"]]:
@@ -300,19 +400,30 @@ def oracle(c, o):
                     v.append(("merge-wrong", "step %d: node %d was handed %s for %s while holding %s; it now holds %s, expected %s" % (si, i, cc, e["key"], pheld[i].get(k), got, want)))
             elif held[i] != pheld[i]:
                 v.append(("invalid-accepted", "step %d: node %d changed its store on a record presented under a key it does not belong to" % (si, i)))
+        # sync points: wherever a node handled LocalSwarmCmd::PutLocalRecord its fetcher takes the store's range
+        for x in s["log"]:
+            if "put_local" in x and store_range[x["node"]] is not None:
+                sync_range[x["node"]] = store_range[x["node"]]
         prev = held
+        prev_state = st
     # convergence after full rounds
     if c.get("full_rounds") and not o.get("undelivered"):
         fin = o["final"]
         for a in range(len(fin)):
             for b in range(len(fin)):
-                if a == b or b not in fin[a]["candidates"] or a not in fin[b]["closest_k"]:
+                if a == b or b not in fin[a]["candidates"] or a not in expected_closest(b, fin[b], pd):
                     continue
                 ha = {json.dumps(h["key"], sort_keys=True): canon(h["content"], names) for h in fin[a]["held"]}
                 hb = {json.dumps(h["key"], sort_keys=True): canon(h["content"], names) for h in fin[b]["held"]}
                 for k, ca in ha.items():
                     if k not in hb:
-                        v.append(("not-replicated", "after %d full rounds node %d still lacks %s held by its neighbour %d" % (c["full_rounds"], b, k, a)))
+                        # only an IN-RANGE neighbour has to take the record: every time a close peer's list offered
+                        # it to b, it was beyond b's responsible range (as of b's last stored record)
+                        offers = offered.get((b, k), [])
+                        if offers and not any(offers):
+                            continue
+                        v.append(("not-replicated", "after %d full rounds node %d still lacks %s held by its neighbour %d (distance %s to node %d; offered %d time(s), within its responsible range %d time(s))"
+                                  % (c["full_rounds"], b, k, a, kd[b].get(k), b, len(offers), sum(offers))))
                     elif hb[k] != ca and merge_expected(hb[k], ca) != hb[k]:
                         # (scratchpads carry no version in their type tag: a queued fetch of one is legitimately
                         #  cleared by storing ANY version of it, so for them this stays the known class)
@@ -492,9 +603,12 @@ def gen_ranged(rng, idx):
 
 def gen_crowded(rng, idx):
     """the receiver's routing table holds more than K peers and its range covers them all: a list is
-    acted on only when its holder is among the K closest"""
+    acted on only when its holder is among the K closest -- the node itself and its K-1 nearest peers.
+    Lists are aimed at exact distance ranks around the boundary (the harness resolves {"rank": r} to the
+    r-th nearest routing-table peer of the receiver by its own distances)"""
+    K = KVALUE
     nodes = rng.sample(range(1, 60), 2)
-    phantoms = [x for x in rng.sample(range(60, 200), rng.randint(24, 60)) if x not in nodes]
+    phantoms = [x for x in rng.sample(range(60, 200), rng.randint(30, 70)) if x not in nodes]
     ops = [{"op": "connect", "a": 0, "b": 1}, {"op": "connect", "a": 1, "b": 0},
            {"op": "phantom", "node": 1, "seeds": phantoms}]
     if rng.random() < 0.5:
@@ -504,11 +618,88 @@ def gen_crowded(rng, idx):
     ops.append({"op": "set_range", "node": 1, "range": "max"})
     ops.append({"op": "replicate", "node": 0})
     ops.append({"op": "run", "picks": [0]})
-    # also an explicit list from one of the routing-table-only peers
+    # explicit lists from routing-table peers at chosen ranks (1 = nearest); K-1 is the last one acted on
+    ranks = [K - 1, K] if rng.random() < 0.8 else []
+    ranks += rng.sample([1, 2, K - 3, K - 2, K - 1, K, K + 1, K + 2, K + 5, 2 * K], rng.randint(1, 3))
+    rng.shuffle(ranks)
+    d = 5
+    for r in ranks:
+        keys = [[{"chunk": {"d": idx * 10 + d + x}}, "chunk"] for x in range(rng.randint(1, 2))]
+        d += 2
+        ops.append({"op": "advert", "to": 1, "holder": {"rank": r}, "keys": keys})
+        if rng.random() < 0.6:
+            ops.append({"op": "run", "picks": [0]})
+    # ... and one from a routing-table-only peer chosen whatever its rank
     h = rng.choice(phantoms)
-    ops.append({"op": "advert", "to": 1, "holder": h, "keys": [[{"chunk": {"d": idx * 10 + 7}}, "chunk"]]})
+    ops.append({"op": "advert", "to": 1, "holder": h, "keys": [[{"chunk": {"d": idx * 10 + 4}}, "chunk"]]})
     ops.append({"op": "run", "picks": [0]})
     return {"kind": "crowded", "nodes": nodes, "ops": ops, "full_rounds": 0}
+
+
+def among(recs, rank, delta=0):
+    return {"among": [r["key"] for r in recs], "rank": rank, "delta": delta}
+
+
+def gen_regrow(rng, idx, variant=None):
+    """the RECEIVER (node 1) has a finite responsible range that changes over time. The store's range is set
+    to the distance of the r-th nearest of the advertised keys; a record put into node 1 is where the driver
+    copies it into the fetcher. Variants: regrow (R1, put, R2 > R1, put), regrow-lag (R2 set but nothing put
+    since: the fetcher legitimately still filters with R1), zigzag (shrink, grow, shrink ...), boundary (one
+    range exactly at / one below / one above a key's distance)."""
+    variant = variant or rng.choice(["regrow", "regrow", "regrow-lag", "zigzag", "boundary"])
+    n = rng.choice([2, 2, 3])
+    nodes = rng.sample(range(1, 60), n)
+    ops = connects(n, rng, True)
+    m = rng.randint(5, 9)
+    recs = [rec_chunk(idx * 20 + j) for j in range(m)]
+    if rng.random() < 0.4:
+        recs[rng.randrange(m)] = rec_pad(rng.randint(1, 30), 1, 1)
+    if rng.random() < 0.3:
+        recs[rng.randrange(m)] = rec_reg(rng.randint(31, 40), 1, [1, 2])
+    syncs = [rec_chunk(idx * 20 + 10 + j) for j in range(6)]
+    for r in recs:
+        ops.append(seed(0, r))
+    if rng.random() < 0.3:
+        ops.append(seed(1, rng.choice(recs)))          # the receiver already holds one of them
+    nsync = 0
+
+    def put():
+        nonlocal nsync
+        ops.append(seed(1, syncs[nsync]))
+        nsync += 1
+
+    dl = lambda: rng.choice([0, 0, 0, -1, 1])
+    if variant in ("regrow", "regrow-lag"):
+        i = rng.randint(0, m - 4)
+        j = rng.randint(i + 2, m - 1 if rng.random() < 0.2 else m - 2)
+        ops.append({"op": "set_range", "node": 1, "range": among(recs, i, dl())})
+        put()
+        ops.append({"op": "set_range", "node": 1, "range": among(recs, j, dl())})
+        if variant == "regrow":
+            put()
+    elif variant == "zigzag":
+        ranks = [rng.randint(0, m - 1) for _ in range(rng.randint(3, 5))]
+        for r in ranks:
+            ops.append({"op": "set_range", "node": 1, "range": among(recs, r, dl())})
+            if rng.random() < 0.75:
+                put()
+    else:
+        ops.append({"op": "set_range", "node": 1, "range": among(recs, rng.randint(0, m - 1), rng.choice([-1, 0, 1]))})
+        if rng.random() < 0.85:
+            put()
+    if rng.random() < 0.35:
+        # explicit lists first: one new key beyond the range (fast path), two new keys, held keys mixed in
+        for _ in range(rng.randint(1, 2)):
+            sub = rng.sample(recs, rng.randint(1, min(4, m)))
+            ops.append({"op": "advert", "to": 1, "holder": 0, "keys": [[r["key"], {1: "chunk", 5: "pad", 3: {"ncb": 7}}[r["hdr"]]] for r in sub]})
+            if rng.random() < 0.5:
+                ops.append({"op": "run", "picks": [rng.randrange(0, 4)]})
+    rounds = rng.randint(1, 2)
+    for _ in range(rounds):
+        for x in range(n):
+            ops.append({"op": "replicate", "node": x})
+        ops.append({"op": "run", "picks": [rng.randrange(0, 6) for _ in range(5)]})
+    return {"kind": variant, "nodes": nodes, "ops": ops, "full_rounds": rounds}
 
 
 def gen_midflight(rng, idx):
@@ -567,16 +758,24 @@ def gen_saturated(rng, idx):
 
 def gen(ctx):
     rng = ctx.rng
-    n = 90 if ctx.tier == "quick" else 1800
+    n = 108 if ctx.tier == "quick" else 2160
     cases = []
+    fams = [gen_missing, gen_missing, gen_divergent, gen_adverts, gen_partial, gen_ranged, gen_crowded, gen_midflight,
+            gen_saturated, gen_regrow, gen_regrow, gen_crowded]
     for i in range(n):
-        f = [gen_missing, gen_missing, gen_divergent, gen_adverts, gen_partial, gen_ranged, gen_crowded, gen_midflight, gen_saturated][i % 9]
+        f = fams[i % len(fams)]
         cases.append(f(rng, 100 + i))
     return cases
 
 
 def run(ctx):
+    global KVALUE
     ctx.regen_consts()
+    k = read_k_value()
+    if k is None:
+        ctx.tie_break("translator", "repl_k_value", "K_VALUE could not be re-read from the source (coq/gen/Consts.v has no repl_k_value)")
+    else:
+        KVALUE = k
     ctx.prove("props/C09.v", THEOREMS, extra_trusted=[
         "model coq/model/Replication.v (hand-written) tied to the code by this run's lock-step correspondence over real multi-node executions",
         "harness/crates/c09 (transport + event loop between real SwarmDrivers / Nodes; hooks: verif_handle_replicate_cmd, verif_try_recv_*, read-only views)",
